@@ -26,7 +26,11 @@ def classify(spec):
 
 
 def make_graph(spec):
-    return gr.weighted(spec["n"], [tuple(e) for e in spec["edges"]], spec.get("tw"), spec.get("rw"))
+    G = gr.weighted(spec["n"], [tuple(e) for e in spec["edges"]], spec.get("tw"), spec.get("rw"))
+    if spec.get("zero_first") and spec.get("tw") and spec["edges"]:
+        u, v = spec["edges"][0]
+        G[u][v][spec["tw"]] = 0.0
+    return G
 
 
 def _state_policy(nodes):
@@ -72,7 +76,8 @@ def run_spec(spec, props=("C01", "C02")):
     before = mon.snap(G) if "C19" in props else None
     pol = _state_policy(nodes)
     try:
-        runs = list(explore(sim, lambda orc: call(orc, full), exp=pol, cap=spec.get("cap", 300000), stats=A.count))
+        runs = list(explore(sim, lambda orc: call(orc, full), exp=pol, cap=spec.get("cap", 300000), stats=A.count,
+                            zero_draws=bool(spec.get("zero_draws"))))
     except CapHit as e:
         A.caps.append(str(e)); return A.result(props)
     A.execs = len(runs)
@@ -173,6 +178,13 @@ def run_spec(spec, props=("C01", "C02")):
         if len(arrs[0]) > 1:
             A.nontrivial.add(hsh((r.chosen(),)))
         if main in props:
+            # every event of every execution - including executions of probability zero (a uniform draw equal to
+            # exactly 0.0, explored when the spec asks for it) - must be a positive-rate transition of the chain
+            sts = [m[3] for m in b] + ([tuple(r.ctx["status"].get(v, "S") for v in nodes)] if r.ctx.get("status") is not None else [])
+            for s0, s1 in zip(sts, sts[1:]):
+                if s1 != s0 and rates(s0).get(s1, 0.0) <= 0:
+                    A.add(V(main, fn, cls, "zero_rate_event", "event %r -> %r happened although its rate is zero" % (s0, s1), r.chosen()))
+                    break
             rows = len(arrs[0])
             if rows not in (len(b), len(b) + 1):
                 A.add(V(main, fn, cls, "rows_vs_events", "%d rows but %d waiting times drawn" % (rows, len(b)), r.chosen()))
@@ -282,6 +294,11 @@ def specs_sir(tier):
                     for full in (False, True):
                         out.append(dict(fn="Gillespie_SIR", n=n, edges=es, tw=tw, rw=rw, tau=1.1, gamma=0.7,
                                         I0=list(I0), R0=[], tmin=tmin, tmax=tmax, full=full))
+    # probability-zero outcomes of the uniform draws (exactly 0.0): zero-weight links/nodes must NEVER be chosen
+    for (n, es) in (gr.NAMED["K3"], gr.NAMED["P3"]):
+        for I0 in gr.subsets(range(n), 1, 1):
+            out.append(dict(fn="Gillespie_SIR", n=n, edges=es, tw="w", rw="rw", tau=0.3, gamma=0.7, I0=list(I0), R0=[], full=False,
+                            zero_draws=True, zero_first=True))
     return out
 
 
@@ -308,6 +325,10 @@ def specs_sis(tier):
                             continue
                         out.append(dict(fn="Gillespie_SIS", n=n, edges=es, tw=tw, rw=rw, tau=tau, gamma=gamma,
                                         I0=list(I0), tmin=0, tmax=kk + 0.5, full=full))
+        if n == 3 and len(es) >= 2:
+            for I0 in gr.subsets(nodes, 1, 1):
+                out.append(dict(fn="Gillespie_SIS", n=n, edges=es, tw="w", rw="rw", tau=0.3, gamma=0.7, I0=list(I0), tmin=0, tmax=3.5,
+                                full=False, zero_draws=True, zero_first=True))
         # exact hit of tmax and shifted tmin
         for tmin, tmax in ((0, 3), (1.5, 4.5), (-2, 0.5)):
             for I0 in gr.subsets(nodes, 1, 1):
